@@ -325,7 +325,7 @@ def _instantiate(graw, t, bind=None):
         if isinstance(x, list):
             return [fix(y) for y in x]
         if isinstance(x, dict):
-            return {k: (fix(v) if k in ("t", "ty", "generics", "adt", "locals", "blocks", "st", "term", "rv", "lhs", "pl", "p", "a", "args", "dest", "kind", "on") else v) for k, v in x.items()}
+            return {k: (fix(v) if k in ("t", "ty", "generics", "resolved_generics", "static", "adt", "locals", "blocks", "st", "term", "rv", "lhs", "pl", "p", "a", "args", "dest", "kind", "on", "indirect", "cond") else v) for k, v in x.items()}
         return x
     out = dict(graw)
     out["locals"] = fix(graw["locals"])
